@@ -5,7 +5,8 @@
 //!  (b) real transactions (real keys, `Transaction::add_hop` / `Hop::generate`) with arbitrary fees and paths:
 //!      `generate_total_work`, `validate_routing_path`, `get_winning_routing_node` against the model.
 //!  (c) real blocks (`Block::create`, then re-ordered and re-signed) whose routing work falls short of / meets /
-//!      exceeds the requirement, offered to a real node; verdict against the model and against an ORACLE work
+//!      exceeds the requirement, offered to TWO real nodes — one fed from genesis, one that joined mid-chain (never
+//!      receives block 1: `validate_against_utxo` = false); verdict against the model and against an ORACLE work
 //!      computation done here (closed form, real signature verification).
 //!  (d) fee transactions of the blocks of (c): outputs against the model's payout function; direct monitor of
 //!      eligibility (ticket key or on a routing path of a paid block) and of the bound (Σ ≤ fees of the paid blocks).
@@ -674,6 +675,11 @@ pub struct Built {
 pub struct World {
     pub f: Factory,
     pub node: Node,
+    /// a second validating node that joined mid-chain: it never receives block 1, so `has_total_supply_loaded()` is
+    /// false and `Block::validate` runs with `validate_against_utxo = false`
+    pub mid: Node,
+    pub mid_started: bool,
+    pub mid_alive: bool,
     pub keys: Keys,
     pub pool: Vec<Utxo>, // unspent genesis outputs
     pub gp: u64,
@@ -692,8 +698,9 @@ impl World {
         let g = f.make_genesis(&issue).await;
         f.remember(&g);
         let pool = outputs_of(&g, &owner_lookup(NKEYS));
-        let node = Node::new(0, cfg);
-        (World { f, node, keys: Keys::new(), pool, gp }, g)
+        let node = Node::new(0, cfg.clone());
+        let mid = Node::new(0, cfg);
+        (World { f, node, mid, mid_started: false, mid_alive: true, keys: Keys::new(), pool, gp }, g)
     }
 
     fn take_utxo(&mut self, r: &mut Rng, sender: Option<u64>) -> Option<Utxo> {
@@ -797,11 +804,16 @@ fn eligible_keys(b: &Block) -> Vec<SaitoPublicKey> {
 /// offer `b` (child of `parent`, grandparent `pp`) to the node; emit the `blk` and `fee` lines; run the monitors.
 /// `tampered`: the block's fee transactions were edited after `Block::create` (the `fee` line — create's own
 /// payout against the model — is then skipped; the `blk` line carries the block's actual fee outputs).
-async fn offer(w: &mut World, out: &mut Out, b: &Block, plan: &BlockPlan, parent: &Block, pp: Option<&Block>, tampered: bool, ctx: &serde_json::Value) -> bool {
+/// `mid`: offer to the node that joined mid-chain instead of the full node (only the `blk` line and the monitors).
+async fn offer(w: &mut World, out: &mut Out, b: &Block, plan: &BlockPlan, parent: &Block, pp: Option<&Block>, tampered: bool, mid: bool, ctx: &serde_json::Value) -> bool {
     let keys = &mut w.keys;
+    let node: &mut Node = if mid { &mut w.mid } else { &mut w.node };
     let need = real_need(parent.burnfee, b.timestamp, parent.timestamp, HB);
     let (valid, forged, selfhop) = oracle_block_work(b);
-    let res = guarded_async(w.node.add_block(b.clone())).await;
+    // `validate_against_utxo` of this node (Blockchain::has_total_supply_loaded; chains here are shorter than the genesis period)
+    let vau = node.blockchain.blockring.get_longest_chain_block_hash_at_block_id(1).is_some();
+    let tag = if mid { "blkmid" } else { "blk" };
+    let res = guarded_async(node.add_block(b.clone())).await;
     let (cls, panic_msg) = match &res {
         Ok(r) => (add_result_class(r), String::new()),
         Err(m) => ("panic", m.clone()),
@@ -841,27 +853,33 @@ async fn offer(w: &mut World, out: &mut Out, b: &Block, plan: &BlockPlan, parent
             );
         }
     }
-    let op = format!("blk {} {} {} {} {} 1 {} {} {}", parent.burnfee, b.timestamp, parent.timestamp, HB, keys.id(&b.creator), txs_str(&b.transactions, keys), fee_field, gtctx);
+    let op = format!("blk {} {} {} {} {} 1 {} {} {} {}", parent.burnfee, b.timestamp, parent.timestamp, HB, keys.id(&b.creator), vau as u8, txs_str(&b.transactions, keys), fee_field, gtctx);
     out.case(&op, &format!("acc={} need={} work={} valid={}", acc, need, b.total_work, valid));
     let e = plan.elapsed;
     let side = if e <= 0 { "misordered" } else if (e as u64) < HB { "lt-hb" } else if (e as u64) < 2 * HB { "hb-to-2hb" } else { "ge-2hb" };
-    out.count(&format!("blk:elapsed:{}", side));
-    out.count(&format!("blk:mode:{}:{}", plan.mode, match acc { "1" => "accepted", "0" => "rejected", x => x }));
+    out.count(&format!("{}:elapsed:{}", tag, side));
+    out.count(&format!("{}:mode:{}:{}", tag, plan.mode, match acc { "1" => "accepted", "0" => "rejected", x => x }));
+    out.count(&format!("{}:validate_against_utxo:{}", tag, vau as u8));
     let replay = serde_json::json!({"case": ctx, "op": op});
     let needv: u64 = need.parse().unwrap_or(u64::MAX);
     // the block passed Block::validate if it was added, or if the node died in the supply check that follows winding
     let passed_validation = acc == "1" || acc == "supply-panic";
     if passed_validation && valid < needv {
         // feature of the INPUT, computed here alone
-        let class = if forged { "forged-hop-signature" } else if selfhop { "self-hop" } else { "clean-paths" };
+        let class = if forged { "forged-hop-signature" } else if selfhop { "self-hop" } else { "too-little-work" };
+        // … and of the validating node: one that never received block 1 gets its own class
+        let class = if vau { class.to_string() } else { format!("{}/node-without-block-1", class) };
         out.monitor_fail(
             &format!("C08/accepted-without-enough-valid-work/{}", class),
-            &format!("block accepted with valid routing work {} (counted by the node: {}) but {} needed", valid, b.total_work, needv),
+            &format!(
+                "block accepted by a node {} with valid routing work {} (counted by the node: {}) but {} needed (elapsed {} ms, parent burn fee {})",
+                if vau { "holding block 1" } else { "that joined mid-chain (validate_against_utxo = false)" }, valid, b.total_work, needv, plan.elapsed, parent.burnfee
+            ),
             replay.clone(),
         );
     }
     // ---- the block-level lottery on this block (as a later block would run it): crafted and random numbers
-    if acc == "1" {
+    if acc == "1" && !mid {
         let y = b.total_fees as u128;
         let mut numbers: Vec<SaitoHash> = vec![hash(&b.hash), hash(&b.signature[..8])];
         let mut cum: u128 = 0;
@@ -894,7 +912,7 @@ async fn offer(w: &mut World, out: &mut Out, b: &Block, plan: &BlockPlan, parent
         }
     }
     // ---- (d) fee transactions
-    if gt_tx.is_some() && !tampered {
+    if gt_tx.is_some() && !tampered && !mid {
         // the fee transaction of an untampered block is the one Block::create derived: compare it with the model
         let imp = if fee_txs.iter().all(|t| t.to.is_empty()) { "outs=-".to_string() } else { format!("outs={}", fee_lists.iter().filter(|x| *x != "~").cloned().collect::<Vec<_>>().join(",")) };
         out.case(&format!("fee {}", gtctx), &imp);
@@ -920,12 +938,14 @@ async fn offer(w: &mut World, out: &mut Out, b: &Block, plan: &BlockPlan, parent
         }
         // feature of the INPUT: how the block's fee transactions deviate from "exactly one, only with a ticket"
         let class = if gt_tx.is_none() { "fee-transaction-without-ticket" } else if fee_txs.len() > 1 { "second-fee-transaction" } else { "single-fee-transaction" };
+        // a node without block 1 compares no fee transaction at all (one root cause whatever the shape)
+        let class = if vau { class } else { "node-without-block-1" };
         let mut sum: u128 = 0;
         let mut bad = 0;
         for t in &fee_txs {
             for s in &t.to {
                 sum += s.amount as u128;
-                let wound = w.node.blockchain.utxoset.get(&s.utxoset_key).copied();
+                let wound = node.blockchain.utxoset.get(&s.utxoset_key).copied();
                 if (gt_tx.is_none() || s.public_key != miner) && !elig.contains(&s.public_key) {
                     bad += 1;
                     out.monitor_fail(
@@ -943,10 +963,34 @@ async fn offer(w: &mut World, out: &mut Out, b: &Block, plan: &BlockPlan, parent
             out.monitor_fail(&format!("C08/fee-outputs-exceed-fees-of-paid-blocks/{}", class), &format!("outputs {} fees {}", sum, budget), replay.clone());
         }
         if !fee_txs.is_empty() {
-            out.count("fee:monitored");
+            out.count(if mid { "fee:monitored-on-node-without-block-1" } else { "fee:monitored" });
         }
     }
     acc == "1"
+}
+
+/// the same block for the node that joined mid-chain. Its first block (id 2, parent unknown to it) is simply delivered;
+/// from then on every block gets its own `blk` line (vau = 0) and the monitors. The node is dropped from the case once it
+/// disagrees with the full node (it would no longer be on the chain the factory extends).
+async fn offer_mid(w: &mut World, out: &mut Out, b: &Block, plan: &BlockPlan, parent: &Block, pp: Option<&Block>, tampered: bool, full_accepted: bool, ctx: &serde_json::Value) {
+    if !w.mid_alive {
+        return;
+    }
+    if !w.mid_started {
+        w.mid_started = true;
+        let ok = matches!(guarded_async(w.mid.add_block(b.clone())).await.as_ref().map(add_result_class), Ok("added_lc"));
+        let no_block_1 = w.mid.blockchain.blockring.get_longest_chain_block_hash_at_block_id(1).is_none();
+        if !ok || !no_block_1 {
+            w.mid_alive = false;
+            out.count("blkmid:could-not-start");
+        }
+        return;
+    }
+    let acc = offer(w, out, b, plan, parent, pp, tampered, true, ctx).await;
+    if acc != full_accepted {
+        w.mid_alive = false;
+        out.count("blkmid:verdict-differs-from-full-node");
+    }
 }
 
 fn filler(r: &mut Rng, creator: u64, target: u64, kind: u64) -> (TxPlan, &'static str) {
@@ -1112,10 +1156,11 @@ async fn chain_case(seed: u64, idx: u64, out: &mut Out, forced: Option<(i64, u64
         };
         let pp = if chain.len() >= 2 { Some(chain[chain.len() - 2].clone()) } else { None };
         let ctx = serde_json::json!({"seed": seed, "case": idx, "block": format!("prefix{}", k), "plan": plan_json(&plan)});
-        if !offer(&mut w, out, &b, &plan, &parent, pp.as_ref(), false, &ctx).await {
+        if !offer(&mut w, out, &b, &plan, &parent, pp.as_ref(), false, false, &ctx).await {
             out.count("blk:prefix-rejected");
             return;
         }
+        offer_mid(&mut w, out, &b, &plan, &parent, pp.as_ref(), false, true, &ctx).await;
         chain.push(b);
         plans.push(plan);
     }
@@ -1129,7 +1174,8 @@ async fn chain_case(seed: u64, idx: u64, out: &mut Out, forced: Option<(i64, u64
     let pp = chain[chain.len() - 2].clone();
     let accepted_b = match w.build(&mut r, &parent, &mut plan, 100).await {
         Some(b) => {
-            let acc = offer(&mut w, out, &b, &plan, &parent, Some(&pp), false, &ctx).await;
+            let acc = offer(&mut w, out, &b, &plan, &parent, Some(&pp), false, false, &ctx).await;
+            offer_mid(&mut w, out, &b, &plan, &parent, Some(&pp), false, acc, &ctx).await;
             if acc {
                 chain.push(b);
             }
@@ -1217,7 +1263,8 @@ async fn chain_case(seed: u64, idx: u64, out: &mut Out, forced: Option<(i64, u64
                 plan.mode = "payout";
             }
         }
-        offer(&mut w, out, &b, &plan, &parent, Some(&pp), tampered, &ctx).await;
+        let acc = offer(&mut w, out, &b, &plan, &parent, Some(&pp), tampered, false, &ctx).await;
+        offer_mid(&mut w, out, &b, &plan, &parent, Some(&pp), tampered, acc, &ctx).await;
     } else {
         out.count("blk:factory-could-not-build");
     }
